@@ -12,7 +12,7 @@ Oracle : sequence equality per group (type aware: list vs tuple vs array, int vs
 """
 import random
 
-from ..common import Check, Outcome, bootstrap, norm, with_prelude, prelude_tags, shrink_prelude, PRELUDE_TAGS
+from ..common import Check, Outcome, bootstrap, norm, with_prelude, prelude_tags, shrink_prelude, PRELUDE_TAGS, PRELUDE_RULE
 from .. import gen, progs, model
 from ..muxmon import lifetimes
 
@@ -31,6 +31,7 @@ class C01(Check):
             '(occasionally 50; every 150th case at scale: 300 groups, or groups of 400-800 items with take/batch parameters of 257+) of 0..40 items each, interleaving shape round-robin / blocks / reversed blocks / random / singletons-first; mode group_by, bare multiplex, or '
             'inside roll / split windows). Predicates return bool in the main class; a separate class uses predicates returning truthy non-bool values. '
             'non-trivial = >= 2 groups (or window lifetimes), >= 2 operators and some group emits an item; distinct = hash of the case')
+    RULE += PRELUDE_RULE
     ASSUMPTIONS = ['preconditions of the statement, applied by the generator and counted: accumulators return the seed\'s type; first / last / mean(reduce) are not applied to an empty group '
                    '(decided by the reference model, never by "the plain run raised"); inside a tee branch no completion-triggered operator after take/first, transitively through nested tee_maps',
                    'no streaming scan that mutates and re-emits its accumulator object: an operator that retains the object (to_list, a tee join) shows its later mutations, and since take/first do not end a multiplexed key early the accumulator keeps being mutated there (reducing forms are used instead; C09 checks the streaming form with snapshots)',
